@@ -792,6 +792,67 @@ def search_last(ctx: Ctx) -> SearchResult:
 	return res
 
 
+def depth0_groups(items: list[Item], b: str, pre: str) -> list[tuple[str, str]]:
+	"""(text in front, inside) of the groups of kind `b` that do not lie inside another group of kind `b`, in text order
+	(groups of the other kinds are transparent) - computed on the generated structure"""
+	out: list[tuple[str, str]] = []
+	for it in items:
+		if it[0] == 'g':
+			if it[1] == b:
+				out.append((pre, render(it[2])))
+			else:
+				out.extend(depth0_groups(it[2], b, pre + it[1][0]))
+		pre += render([it])
+	return out
+
+
+def search_last_general(ctx: Ctx) -> SearchResult:
+	B = _bp()
+	rng = ctx.sub_rng('law-last-general')
+	res = SearchResult('break_last_block on whole fragments: (everything in front of, inside of) the last group of the kind that is not nested in a group of the kind - also followed by text, inside other groups, with the same group text occurring earlier (structure-side oracle); the parts reassemble')
+	hist: dict[str, int] = {}
+	seen: set[str] = set()
+	for text, b, want in [('m[i][i]', '[]', ('m[i]', 'i')), ('f(x)(x);', '()', ('f(x)', 'x')), ('a[0]{b[0]}', '[]', ('a[0]{b', '0'))]:
+		res.cases += 1
+		try:
+			got: Any = guarded(B.break_last_block, text, b)
+		except Exception as e:  # noqa: BLE001
+			got = exc_enum(e)
+		if got != want:
+			res.findings.append(Finding(key='last:general-position', what=f'break_last_block({text!r}, {b!r}) = {got!r}, expected {want!r}', replay={'text': text, 'brackets': b, 'witness': True}))
+	for i in range(ctx.scale(15000, 150000)):
+		b = BRACKETS[i % 4]
+		mode = 'clean' if (i // 4) % 2 else 'dirty'
+		items = gen_fragment(rng, mode, i, exclude=b)
+		if i % 3 == 0 and items:
+			# the same group text twice (the first occurrence must not be taken for the last group)
+			g = ('g', b, gen_items(rng, 1, mode, 2, 0.2, b, b))
+			items.insert(rng.randrange(len(items) + 1), g)
+			items.append(g)
+			if rng.random() < 0.5:
+				items.append(('a', rng.choice([';', '.x', ' '])))
+		text = render(items)
+		groups = depth0_groups(items, b, '')
+		want2: Any = groups[-1] if groups else 'IndexError'
+		res.cases += 1
+		seen.add(b + text)
+		try:
+			got = guarded(B.break_last_block, text, b)
+		except Exception as e:  # noqa: BLE001
+			got = exc_enum(e)
+		k = f'{mode} {b} groups={min(len(groups), 4)}'
+		hist[k] = hist.get(k, 0) + 1
+		if got != want2:
+			res.findings.append(Finding(key='last:general-position', what=f'break_last_block({text!r}, {b!r}) = {got!r}, expected {want2!r}', replay={'text': text, 'brackets': b}))
+		elif isinstance(got, tuple) and not text.startswith(got[0] + b[0] + got[1] + b[1]):
+			res.findings.append(Finding(key='last:reassemble', what=f'break_last_block({text!r}, {b!r}) = {got!r} does not reassemble to a prefix of the text', replay={'text': text, 'brackets': b}))
+		elif len(res.samples) < 2 and len(groups) > 1:
+			res.samples.append({'text': text, 'brackets': b, 'result': got})
+	res.distinct = len(seen)
+	res.histogram = hist
+	return res
+
+
 def check_decorator(text: str, path: str, args: list[tuple[str | None, str]]) -> tuple[str, str] | None:
 	from rogw.tranp.view.helper.decorator import DecoratorHelper
 	h = DecoratorHelper(text)
@@ -1150,6 +1211,12 @@ STATEMENTS: dict[str, str] = {
 	'sep_total': 'the loop of break_separator finishes for every text and delimiter (fuel len+1 is never exhausted)',
 	'last_block': 'break_last_block(render pre + open + render inner + close, kind) = (render pre, render inner) for all fragments pre, inner whose strings do not contain the brackets of that kind (other brackets and quotes allowed)',
 	'last_block_error': 'no opening or no closing bracket of the kind in the text: IndexError (ranges[-1])',
+	'last_block_reassemble': 'on EVERY text: break_last_block(text) = (p, i) implies text = p + open + i + close + rest - the parts are cut at the scanned position (m[i][i] gives (m[i], i))',
+	'last_block_spec': 'for every fragment whose strings hold no bracket of the kind: (everything in front of, inside of) the LAST group of the kind not nested in another group of the kind, wherever it stands; none: IndexError',
+	'last_block_any_string_counterexample': 'with a bracket of the kind inside a string the law is false (f(")")): break_last_block does not look at quotes - the reason for "brackets of other kinds" in the quantifier',
+	'callsites_literals / callsites_last_block / callsites_separator': 'GENERATED table of all 15 production call sites (py via ast, j2 templates): every brackets literal is one of the four pairs, every delimiter one plain character (decide over the table); hence last_block/reassembly hold at every break_last_block/parse_bracket site and the exact split at every break_separator site',
+	'caller_indexer_cvar_new': 'PatternParser.break_indexer(recv[key]) = (recv, key), pluck_cvar_new(Class(args)) = (Class, args)',
+	'bracket_spec_prefix': 'bracket_spec with ANY fragment in front of the group that has no top-level group of the kind (blanks, delimiters, strings, other-kind groups like g[(1)]): the delimiter-free second _analyze_entry finds the block\'s own bracket',
 	'decorator': 'DecoratorHelper._parse(path + "(" + render args + ")") = (path, dict built from exactly the top-level comma pieces of args, render args) for every path without "(" and every args fragment',
 	'decorator_piece_positional / decorator_piece_labelled': 'a piece without top-level "=" is stored verbatim under str(position) whatever "=" are nested in it; a piece label=value is stored as exactly the texts around its first top-level "="',
 	'decorator_positional': 'f(v) for a single positional argument v (no top-level "," or "="): {"0": v.strip()} - the former counterexample f(g(k=1)) is an instance',
@@ -1167,11 +1234,12 @@ STATEMENTS: dict[str, str] = {
 
 def translate(ctx: Ctx) -> tuple[bool, str]:
 	try:
-		from translate import gen_block_pairs
+		from translate import gen_block_callsites, gen_block_pairs
 		ctx.generated_tables.extend(gen_block_pairs.generate())
+		ctx.generated_tables.extend(gen_block_callsites.generate())
 		return True, ''
 	except Exception as e:  # noqa: BLE001
-		return False, f'gen_block_pairs: {type(e).__name__}: {e}'
+		return False, f'translate (gen_block_pairs / gen_block_callsites): {type(e).__name__}: {e}'
 
 
 def cap_findings(searches: list[SearchResult]) -> None:
@@ -1204,7 +1272,7 @@ def run(ctx: Ctx) -> int:
 			stream_dictlike(ctx, ctx.scale(3000, 30000)),
 		]
 	with ctx.timed('search'):
-		searches = [search_skip(ctx), search_sep(ctx), search_last(ctx), search_decorator(ctx), search_param(ctx), search_bracket(ctx), search_pair(ctx), search_callers(ctx), search_query(ctx)]
+		searches = [search_skip(ctx), search_sep(ctx), search_last(ctx), search_last_general(ctx), search_decorator(ctx), search_param(ctx), search_bracket(ctx), search_pair(ctx), search_callers(ctx), search_query(ctx)]
 	cap_findings(searches)
 	return common.finish(ctx, proof, streams, searches,
 		translate_ok=translate_ok, translate_msg=translate_msg,
